@@ -292,6 +292,26 @@ func H_C09_shape(hh, via, shape, w int) {
 		x.lit(";x")
 		pe = len(x.b)
 		hasExp, hasTag = true, true
+	case 13: // a valueless lr in the middle, followed by white space and more parameters (bare URI when w is odd)
+		if w%2 == 1 {
+			us, ue = x.sym(2, 0)
+		} else {
+			x.lit("<")
+			us, ue = x.sym(2, 0)
+			x.lit(">")
+		}
+		x.lit(";")
+		ps = len(x.b)
+		x.ci("lr")
+		x.lws()
+		x.lit(";")
+		x.lws()
+		o1, o2 := x.sym(1, 1)
+		vAssume(!refEqFold(x.b[o1:o2], "q"))
+		x.lit("=")
+		x.sym(1, 1)
+		pe = len(x.b)
+		lr = true
 	case 12: // other parameters whose names have the length of q / lr / tag / expires, with and without a value
 		x.lit("<")
 		us, ue = x.sym(1, 0)
@@ -327,7 +347,7 @@ func H_C09_shape(hh, via, shape, w int) {
 		vend = pe
 	} else if ue > 0 {
 		vend = ue
-		if shape != 3 && shape != 6 && shape != 10 {
+		if shape != 3 && shape != 6 && shape != 10 && !(shape == 13 && w%2 == 1) {
 			vend = ue + 1 // closing '>'
 		}
 	}
